@@ -510,11 +510,11 @@ func VerifHarness_C03_verify_sym() {
 }
 
 func VerifHarness_C01_repair_sym() {
-	s := buildArchiveMode(symLens(), 2, 1, contentSymbolic)
+	s := buildArchiveMode(symLens(), 1, 1, contentSymbolic)
 	kind := rt.Choice("kind", dmgKinds-1)
 	damage(s, 0, kind, "a")
 	_, err := checkRepair(s, false, 1)
-	if lost := expectedLost(s.orig[0], kind); lost >= 0 && lost <= 2 {
+	if lost := expectedLost(s.orig[0], kind); lost >= 0 && lost <= 1 {
 		rt.Assert(err == nil, "damage within recovery capacity: Repair succeeds")
 		rt.Reach("repaired")
 	}
